@@ -79,7 +79,13 @@ func (rt *runtime) cmplEvaluateNodeStatement(node nodeStatement) Value {
 				rt.labels = nil
 			}
 		}()
-		return rt.cmplEvaluateNodeStatement(node.statement)
+		value := rt.cmplEvaluateNodeStatement(node.statement)
+		if value.kind == valueResult && value.evaluateBreak([]string{node.label}) == resultBreak {
+			// A break to the label of a statement that doesn't take its labels
+			// itself (if, try, with, ...) ends here.
+			return emptyValue
+		}
+		return value
 
 	case *nodeReturnStatement:
 		if node.argument != nil {
